@@ -8,6 +8,8 @@
 
 use std::rc::Rc;
 
+use mqtt_proto::{GenericPollPacket, GenericPollPacketState};
+
 use crate::ast::*;
 use crate::case::*;
 use crate::dispatch;
@@ -203,6 +205,68 @@ fn run_g<C: Codec>(c: &Case, trace: bool) -> RunOut {
             let mut s: Vec<ReadEv> = vec![ReadEv::Chunk(1); *k];
             s.push(ReadEv::Pending(WakeP::Now));
             schedules.push((s, 1, vec![true], false, format!("all-1+cancel@{k}")));
+        }
+    }
+
+    // two decoder tasks on one thread (two connections: the case's stream, and a fixed 300-byte
+    // PUBLISH delivered under the case's schedule read backwards), each with its own caller-held
+    // state: each must produce what the uninterrupted read of its own stream produces
+    if len <= 65_536 && c.read_script.iter().any(|e| matches!(e, ReadEv::Pending(_))) {
+        fn show<C: Codec>(r: Result<(usize, Vec<std::mem::MaybeUninit<u8>>, C::Packet), C::Err>) -> String {
+            match r {
+                Ok((total, buf, pkt)) => format!("Ok total={total} body={:?} packet={}", uninit_to_vec(buf), safe_debug(&pkt)),
+                Err(e) => format!("Err {e:?}"),
+            }
+        }
+        let brief = |fe: &Fe<C::Packet, C::Err>| match fe {
+            Fe::Ok { pkt, total: Some(t), body: Some(b), .. } => Some(format!("Ok total={t} body={b:?} packet={}", safe_debug(pkt))),
+            Fe::Err { e, .. } => Some(format!("Err {e:?}")),
+            _ => None,
+        };
+        let other: Rc<Vec<u8>> = {
+            let mut v = if c.fam.is_v5() { vec![0x30, 0xB0, 0x02, 0x00, 0x01, b't', 0x00] } else { vec![0x30, 0xAF, 0x02, 0x00, 0x01, b't'] };
+            v.extend((0..300u32).map(|i| (i % 251) as u8));
+            Rc::new(v)
+        };
+        let base2 = run_p::<C>(&other, &[], 0, &[], &[], false, trace, &mut out);
+        if let (Some(want), Some(want2)) = (brief(&base.fe), brief(&base2.fe)) {
+            let core = Core::new(trace);
+            let mut rev = c.read_script.clone();
+            rev.reverse();
+            let mut rd1 = SimReader::new(&core, stream.clone(), c.read_script.clone());
+            rd1.tail = c.read_tail;
+            let mut rd2 = SimReader::new(&core, other.clone(), rev);
+            rd2.tail = c.read_tail;
+            let mut st1 = GenericPollPacketState::<C::Header>::default();
+            let mut st2 = GenericPollPacketState::<C::Header>::default();
+            let cap = 2 * poll_cap(len, &c.read_script) + 64;
+            let r = guarded(std::panic::AssertUnwindSafe(|| {
+                let mut ex = Exec::new(&core, cap);
+                let mut fut = Join2 {
+                    a: Box::pin(async { show::<C>(GenericPollPacket::new(&mut st1, &mut rd1).await) }),
+                    b: Box::pin(async { show::<C>(GenericPollPacket::new(&mut st2, &mut rd2).await) }),
+                    ra: None,
+                    rb: None,
+                };
+                ex.run(std::pin::Pin::new(&mut fut))
+            }));
+            out.absorb_core(&core, trace);
+            out.evals += 1;
+            out.probe("two-decoders-interleaved");
+            match r {
+                Ok(Ok((x, y))) => {
+                    for (i, (got, want)) in [(x, want), (y, want2)].iter().enumerate() {
+                        if got != want {
+                            out.violate(
+                                sig(c, &stream, "interleaved!=baseline"),
+                                format!("two poll decoders interleaved on one thread: task {} returned\n    {}\n  the uninterrupted read returns\n    {}", i + 1, &got[..got.len().min(400)], &want[..want.len().min(400)]),
+                            );
+                        }
+                    }
+                }
+                Ok(Err(_)) => out.violate(sig(c, &stream, "interleaved-stuck"), "two interleaved poll decoders made no progress within the poll cap".to_string()),
+                Err(m) => out.violate(sig(c, &stream, "interleaved-panic"), format!("two interleaved poll decoders panicked: {m}")),
+            }
         }
     }
 
